@@ -80,12 +80,24 @@ def run_c11(case):
                 M, n = case["M"], case["n"]
                 chunks = []
                 got = 0
+                extra = case.get("prows_extra") if (prow and case.get("mode") != "d") else None
+                if extra:
+                    # several parameter rows in one call; the block of the judged row is tested
+                    j = int(case.get("prow_index", 0)) % (len(extra) + 1)
+                    rows_all = [list(x) for x in extra[:j]] + [list(prow)] + [list(x) for x in extra[j:]]
+                    params = B.params_points(pspace, rows_all)
+                    stats["multi_row_calls"] = 1
                 while got < M:
                     if case.get("mode") == "d":
                         p = domain.sample_random_uniform(d=float(case["d"]), params=params)
                     else:
                         p = domain.sample_random_uniform(n=n, params=params)
                     c = _coords(p, dom)
+                    if extra:
+                        if len(c) != n * len(rows_all):
+                            out.append(viol("C11", "uniform", "wrong-number-of-points", "", rows=len(c), n=n, k=len(rows_all)))
+                            return _rec(case, out, stats, sim)
+                        c = c[j * n:(j + 1) * n]
                     chunks.append(c)
                     got += len(c)
                     if len(c) == 0:
@@ -224,7 +236,7 @@ def _rec(case, out, stats, sim):
     feats = {"cell": "%s|%s|%s" % (case["law"], "+".join(sorted(set(ks))), case.get("mode", "n")),
              "law": case["law"], "kinds": "+".join(sorted(set(ks))), "root": dom["k"], "mode": case.get("mode", "n"),
              "boundary": G.is_boundary(dom), "faulty": False,
-             "overlapping_union": _has_overlapping_union(dom), "n_small": case.get("n", 0) < 2000,
+             "overlapping_union": _has_overlapping_union(dom, case), "n_small": case.get("n", 0) < 2000,
              "bool_boundary": _has_bool_boundary(dom)}
     rec = {"violations": out, "stats": stats, "sim": sim.summary(), "steps": 0, "rows": stats.get("points"),
            "features": feats, "digest_extra": [stats.get("points"), round(stats.get("chi2_ratio", 0), 6)]}
@@ -240,7 +252,23 @@ def _has_bool_boundary(node):
     return any(_has_bool_boundary(c) for c in G.children(node))
 
 
-def _has_overlapping_union(node):
+def _has_overlapping_union(node, case=None):
+    """A union without the disjoint flag whose operands really overlap at the judged parameter row
+    (decided by the reference model on 4000 uniform points of each operand)."""
     if node["k"] == "union" and not node.get("disjoint"):
-        return True
-    return any(_has_overlapping_union(c) for c in G.children(node))
+        if case is None:
+            return True
+        try:
+            pspace = [tuple(p) for p in case.get("pspace") or []]
+            prow = case.get("prow") or []
+            row = {v: [prow[i]] for i, (v, _) in enumerate(pspace) if i < len(prow)}
+            rng = np.random.default_rng(12345)
+            for x, y in ((node["a"], node["b"]), (node["b"], node["a"])):
+                P = G.uniform_sample(x, row, 4000, rng)
+                for v, val in row.items():
+                    P[v] = np.full((4000, 1), float(val[0]))
+                if bool((G.margin(y, P) >= 0).any()):
+                    return True
+        except Exception:
+            return True
+    return any(_has_overlapping_union(c, case) for c in G.children(node))
